@@ -2,9 +2,14 @@ package execsim
 
 import (
 	"bytes"
+	"encoding/json"
 	"fmt"
+	"io"
+	"os"
+	"os/exec"
 	"runtime"
 	"strings"
+	"sync"
 	"testing"
 
 	"github.com/33cn/chain33/types"
@@ -69,8 +74,17 @@ func (detEngine) Generate(prop string, r *simrt.RNG, tier string, run int) *simr
 	if r.Chance(1, 2) {
 		sc.Knobs["twin"] = 1
 	}
-	if r.Chance(1, 3) {
+	// Flag-guarded local plugins keep their flag in a process-wide cache, so the
+	// local write set of GENESIS is compared between the node booted first and
+	// nodes booted later (always two nodes then), with the first such node of the
+	// worker process, and in a share of the cases with a fresh OS process. The
+	// first runs of every worker process (cold cache) always do this.
+	if run < 64 || r.Chance(1, 3) {
 		sc.Knobs["stat"] = 1 // statistics plugin on
+		sc.Knobs["twin"] = 1
+		if r.Chance(1, 8) {
+			sc.Knobs["child"] = 1
+		}
 	}
 	// The whole chain is wrapped into one op (see wrapChain): a determinism
 	// violation is probabilistic and may depend on what the process did before,
@@ -269,6 +283,11 @@ func (e detEngine) run(ctx *simrt.Ctx) *simrt.Violation {
 		twin = newEnv(ctx, "b-"+uid, opts)
 		defer twin.close()
 	}
+	if stat := sc.Knob("stat", 0) == 1; stat {
+		if v := e.compareGenesis(ctx, en, twin, stat, sc.Knob("child", 0) == 1); v != nil {
+			return v
+		}
+	}
 	var chain []*types.Block // connected blocks in order
 	ops := unwrapChain(sc.Ops)
 	for i := range ops {
@@ -428,4 +447,152 @@ func (e detEngine) compare(ctx *simrt.Ctx, opts simnode.Opts, en, twin *env, cha
 		ctx.Probe("compared_8plus")
 	}
 	return nil
+}
+
+// ---------------------------------------------------------------------------
+// genesis: the one block every node executes by itself at boot
+
+// GenesisObs is what a node shows of the local write set of its genesis block.
+type GenesisObs struct {
+	Stored map[string]string `json:"stored"` // plugin flag key -> stored value (hex) or "absent"
+	Replay string            `json:"replay"` // executor's EventAddBlock answer for the genesis block, hex
+	Err    string            `json:"err,omitempty"`
+}
+
+var flagKeys = [][]byte{types.StatisticFlag(), types.FlagKeyMVCC, types.FlagTxQuickIndex}
+
+func observeGenesis(n *simnode.Node) *GenesisObs {
+	o := &GenesisObs{Stored: map[string]string{}}
+	for _, k := range flagKeys {
+		r, err := n.API.LocalGet(&types.LocalDBGet{Keys: [][]byte{k}})
+		switch {
+		case err != nil:
+			o.Stored[string(k)] = "error:" + err.Error()
+		case len(r.Values) == 0 || r.Values[0] == nil:
+			o.Stored[string(k)] = "absent"
+		default:
+			o.Stored[string(k)] = fmt.Sprintf("%x", r.Values[0])
+		}
+	}
+	d, err := n.Chain.GetBlock(0)
+	if err != nil {
+		o.Err = "getblock:" + err.Error()
+		return o
+	}
+	set, err := execLocal(n, types.EventAddBlock, d)
+	if err != nil {
+		o.Err = "addblock:" + err.Error()
+		return o
+	}
+	o.Replay = fmt.Sprintf("%x", types.Encode(set))
+	return o
+}
+
+func (a *GenesisObs) diff(b *GenesisObs) (string, string) {
+	if a.Err != b.Err {
+		return "genesis/errors", fmt.Sprintf("%q vs %q", a.Err, b.Err)
+	}
+	for _, k := range flagKeys {
+		if a.Stored[string(k)] != b.Stored[string(k)] {
+			return "genesis/stored-plugin-flag", fmt.Sprintf("local key %q stored by genesis: %s vs %s", k, a.Stored[string(k)], b.Stored[string(k)])
+		}
+	}
+	if a.Replay != b.Replay {
+		return "genesis/addblock-local", firstDiff([]byte(a.Replay), []byte(b.Replay))
+	}
+	return "", ""
+}
+
+// first genesis observation of this worker process per configuration
+var (
+	genesisMu    sync.Mutex
+	genesisFirst = map[string]*GenesisObs{}
+)
+
+func (e detEngine) compareGenesis(ctx *simrt.Ctx, en, twin *env, stat, child bool) *simrt.Violation {
+	cfgKey := fmt.Sprintf("stat=%v", stat)
+	a := observeGenesis(en.n)
+	ctx.Probe("genesis_compared")
+	ctx.Logf("genesis %s: stored %v replay %s err %q", cfgKey, a.Stored, simrt.DigestOf(a.Replay), a.Err)
+	genesisMu.Lock()
+	first := genesisFirst[cfgKey]
+	if first == nil {
+		genesisFirst[cfgKey] = a
+		ctx.Probe("genesis_first_of_process")
+	}
+	genesisMu.Unlock()
+	if twin != nil {
+		b := observeGenesis(twin.n)
+		if sig, d := a.diff(b); sig != "" {
+			return ctx.Violate("nondeterministic-exec", sig, "the genesis block executed by the node booted first vs a node booted later in the same process (%s): %s", cfgKey, d)
+		}
+	}
+	if first != nil {
+		if sig, d := first.diff(a); sig != "" {
+			return ctx.Violate("nondeterministic-exec", sig, "the genesis block executed by the first node of this process vs a node booted later (%s): %s", cfgKey, d)
+		}
+	}
+	if child {
+		ctx.Fault("fresh_os_process")
+		c := childGenesis(stat)
+		if sig, d := c.diff(a); sig != "" {
+			return ctx.Violate("nondeterministic-exec", sig+"/fresh-process", "the genesis block executed in a fresh OS process vs in this long-running process (%s): %s", cfgKey, d)
+		}
+	}
+	return nil
+}
+
+// ChildMain is the body of a one-shot fresh process (TestExecsimChild): boot a
+// node with the requested configuration and report its genesis observation.
+func ChildMain(t *testing.T, in io.Reader, out io.Writer) {
+	var req struct {
+		Stat bool `json:"stat"`
+	}
+	data, err := io.ReadAll(in)
+	simrt.Must(err, "read request")
+	simrt.Must(json.Unmarshal(data, &req), "decode request")
+	var obs *GenesisObs
+	simrt.InBubble(t, func() {
+		ctx := simrt.NewCtx(&simrt.Scenario{Property: "C13"})
+		en := newEnv(ctx, "child", simnode.Opts{EditToml: c13Toml(req.Stat, false)})
+		defer en.close()
+		obs = observeGenesis(en.n)
+	})
+	b, _ := json.Marshal(obs)
+	out.Write(append(b, '\n'))
+}
+
+func childGenesis(stat bool) *GenesisObs {
+	self, err := os.Executable()
+	simrt.Must(err, "os.Executable")
+	cmd := exec.Command(self, "-test.run", "^TestExecsimChild$", "-test.timeout", "0", "-test.count", "1")
+	var env []string
+	for _, kv := range os.Environ() {
+		if strings.HasPrefix(kv, "VERIF_") {
+			continue
+		}
+		env = append(env, kv)
+	}
+	cmd.Env = append(env, "VERIF_EXECSIM_CHILD=1")
+	req, _ := json.Marshal(map[string]interface{}{"stat": stat})
+	cmd.Stdin = bytes.NewReader(req)
+	pr, pw, err := os.Pipe()
+	simrt.Must(err, "pipe")
+	cmd.ExtraFiles = []*os.File{pw}
+	var errb bytes.Buffer
+	cmd.Stdout, cmd.Stderr = &errb, &errb
+	simrt.Must(cmd.Start(), "start fresh process")
+	pw.Close()
+	data, _ := io.ReadAll(pr)
+	werr := cmd.Wait()
+	pr.Close()
+	var obs GenesisObs
+	if json.Unmarshal(bytes.TrimSpace(data), &obs) != nil || obs.Stored == nil {
+		s := errb.String()
+		if len(s) > 2000 {
+			s = s[len(s)-2000:]
+		}
+		simrt.Failf("C13 fresh process gave no observation (%v): %s", werr, s)
+	}
+	return &obs
 }
